@@ -23,6 +23,7 @@ META = {
     "event. Instances whose finite state space BFS closes before the depth bound cover histories of any length over the menu",
     "note": "trusted: CPython, vf/hbfs.py canonicaliser, vf/subjref.py (reference model, scripted observers), AutoDetachObserver wrapping by Observable.subscribe",
 }
+META["text"] += "; thread part: subscribe() and dispose() racing the emitting thread, judged against the sequential placements on the same class; no exception escapes"
 RULE = (
     "one BFS per configuration (initial value; which of the 3 observers is scripted and how; error object plain or falsy); events = sub(i), "
     "unsub(i), next(a), next(b), error, complete, dispose, subbare (after dispose); a case = one transition (history replayed from scratch on "
